@@ -155,7 +155,7 @@ impl Clock for StepClock {
             for _ in 0..spins {
                 std::hint::spin_loop();
             }
-            if spins % 3 == 0 {
+            if spins % 8 == 0 {
                 std::thread::yield_now();
             }
         }
@@ -497,7 +497,7 @@ impl World {
             if free {
                 let mut g = ctl.m.lock().unwrap();
                 g.free_run = true;
-                g.jitter = 2000;
+                g.jitter = 600;
             }
             let mut rt = TestHarness::from_source(&source(rc.inc, cfg.c0, cfg.p0))
                 .map_err(|e| format!("compile: {e}"))?
